@@ -291,6 +291,22 @@ pub fn run(tier: Tier) -> i32 {
             }
         }
     }
+    // every *sentence* over a number-centred alphabet (so that the searched share is large)
+    {
+        let alpha = crate::enumr::Alphabet::new(&["a", ".", "*", "[]", "[?", "[", "]", ":", ",", "|", "||", "==", "!", "(", ")", "0", "-1", "2", "2147483647", "-2147483647", "-2147483648", "1073741824", "-1073741824", "`1`"]);
+        let g = crate::gram::Grammar::new(Default::default());
+        let sl = tier.pick(6, 7);
+        let ss = par_sweep(crate::enumr::shards(alpha.len(), 2), |p, st| {
+            let mut list: Vec<String> = Vec::new();
+            let (n, e) = crate::enumr::sentences(&g, &alpha, p, sl, &mut |seq| list.push(alpha.render(seq)));
+            st.states += n;
+            st.transitions += e;
+            for s in &list {
+                total(s, "extreme-number-sentences", st);
+            }
+        });
+        st = st.merge(ss);
+    }
     // (c) nesting families, one subprocess each
     let depths: Vec<usize> = tier.pick(vec![8, 64, 512, 4096, 32768], vec![8, 64, 512, 4096, 32768, 262144]);
     let known = crate::engine::load_known_raw();
